@@ -163,7 +163,8 @@ func (g *gen) group(base, gi int) {
 	extra := g.choose(site+"extra", "none", "unknown-key", "interval-ok", "interval-bad", "interval-int", "query_offset-ok", "query_offset-bad",
 		"limit-ok", "limit-string", "limit-negative", "labels-ok", "labels-scalar", "labels-badname", "labels-__name__", "labels-intvalue",
 		"labels-dupkey", "partial_response_strategy", "interval-dup", "limit-float", "labels-null", "labels-list", "interval-null", "interval-empty",
-		"labels-boolvalue", "labels-nullvalue", "labels-spacename", "limit-null", "query_offset-int", "interval-zero")
+		"labels-boolvalue", "labels-nullvalue", "labels-spacename", "limit-null", "query_offset-int", "interval-zero",
+		"limit-dup-zero-first", "interval-dup-zero-first", "query_offset-dup-zero-first", "limit-dup", "labels-dup-empty-first")
 	switch extra {
 	case 1:
 		item("foo: 1")
@@ -231,6 +232,22 @@ func (g *gen) group(base, gi int) {
 		item("query_offset: 5")
 	case 28:
 		item("interval: 0s")
+	case 29:
+		item("limit: 0")
+		item("limit: 5")
+	case 30:
+		item("interval: 0s")
+		item("interval: 1m")
+	case 31:
+		item("query_offset: 0s")
+		item("query_offset: 1m")
+	case 32:
+		item("limit: 5")
+		item("limit: 6")
+	case 33:
+		item("labels: {}")
+		item("labels:")
+		g.w.line(base+4, "team: a")
 	}
 	rules := g.choose(site+"rules", "list", "missing", "scalar", "null", "map", "dup-key", "empty-list", "list-of-scalars", "list-with-null")
 	switch rules {
